@@ -112,13 +112,15 @@ func runConc1(c *ConcCase, controlled bool) (f *vh.Failure, info concInfo) {
 				arrive(id)
 			}
 		}
+		tcpassembly.VerifPoolLockHook = ctl.BeforeRWLock
+		tcpassembly.VerifResetLockHook = ctl.BeforeLock
 		oi := 0
 		tcpassembly.VerifOrderHook = func(keys []string) []int {
 			oi++
 			return c.Perm(oi-1, len(keys)) // every order is legal: map iteration order is unspecified
 		}
 		defer func() {
-			tcpassembly.VerifYieldHook, tcpassembly.VerifLockHook, tcpassembly.VerifOrderHook = nil, nil, nil
+			tcpassembly.VerifYieldHook, tcpassembly.VerifLockHook, tcpassembly.VerifOrderHook, tcpassembly.VerifPoolLockHook, tcpassembly.VerifResetLockHook = nil, nil, nil, nil, nil
 		}()
 		for i := 0; i < c.NAsm; i++ {
 			ctl.Go(fmt.Sprintf("asm%d", i), feed(i))
@@ -127,7 +129,7 @@ func runConc1(c *ConcCase, controlled bool) (f *vh.Failure, info concInfo) {
 			ctl.Go("flusher", flusher)
 		}
 		ctl.Run()
-		tcpassembly.VerifYieldHook, tcpassembly.VerifLockHook, tcpassembly.VerifOrderHook = nil, nil, nil
+		tcpassembly.VerifYieldHook, tcpassembly.VerifLockHook, tcpassembly.VerifOrderHook, tcpassembly.VerifPoolLockHook, tcpassembly.VerifResetLockHook = nil, nil, nil, nil, nil
 		info.steps, info.lockBusy = ctl.Steps, ctl.LockBusyYields
 		if os.Getenv("VERIF_TRACE") != "" {
 			fmt.Fprintln(os.Stderr, "TRACE", ctl.Trace)
